@@ -876,7 +876,15 @@ class Scores:
         x = getattr(self, x_axis)(points)
         y = getattr(self, y_axis)(points)
 
-        if x[-1] < x[0]:
+        falling = x[-1] < x[0]
+        if x[-1] == x[0]:
+            # The class on the x-axis has no scored samples (only easy ones), so x is
+            # constant and does not tell in which direction the curve is traversed.
+            # The rates of samples assigned to the positive class fall as the
+            # threshold rises iff the scores point towards the positive class.
+            pos_rates = ("tpr", "fpr", "topr", "tar", "far", "acceptance_rate")
+            falling = (x_axis in pos_rates) == (self.score_class == BinaryLabel.pos)
+        if falling:
             x = x[::-1]
             y = y[::-1]
         left = np.searchsorted(x, lower, side="left")  # x[l - 1] < lower <= x[l]
